@@ -27,6 +27,11 @@ def pin_environment():
     import warnings
     warnings.simplefilter("ignore")
     import cfinterface  # noqa
+    # import every module of the package now: an import interrupted by the call budget would be retried forever
+    import importlib, pkgutil
+    for m in pkgutil.walk_packages(cfinterface.__path__, "cfinterface."):
+        importlib.import_module(m.name)
+    import pandas, numpy, datetime, re, io, struct  # noqa
     empty = os.path.join(WORK, "cwd")
     os.makedirs(empty, exist_ok=True)
     os.chdir(empty)          # contents are never mistaken for existing file names
